@@ -123,13 +123,23 @@ static Piece gen_piece(int n, const std::vector<bool>& intdim, Family fam, bool 
       d.base = pick_center(*wp) + rnd(-4, 4); ext = rnd(0, 8);
       if (coin(12)) ext = rnd(1, 3) * wp->M + rnd(0, 5);           // several quadrants
       else if (straddle) { ext = rnd(1, 8); d.base = wp->lo + rnd(-2, 3) * wp->M - rnd(1, (int) ext.get_si()); }   // astride a quadrant boundary
-    } else { d.base = rnd(-6, 6); ext = rnd(0, small ? 4 : 3); }
+    } else { d.base = rnd(-6, 6); ext = (thin && coin(35)) ? 0 : rnd(0, small ? 4 : 3); }
     d.top = d.base + ext;
     d.lb = d.ub = true;
     if (coin(pct_unbounded)) { int k = rnd(0, 2); if (k != 1) d.lb = false; if (k != 0) d.ub = false; }
-    // bounds, possibly rational:  x >= base - j/dd  (no further integer admitted),  x <= top + j/dd
-    if (d.lb) { int dd = coin(25) ? rnd(2, 3) : 1, j = dd > 1 ? rnd(0, dd - 1) : 0; P.spec.cons.push_back(dd * Variable(i) >= Coefficient(Z(dd * d.base - j))); }
-    if (d.ub) { int dd = coin(25) ? rnd(2, 3) : 1, j = dd > 1 ? rnd(0, dd - 1) : 0; P.spec.cons.push_back(dd * Variable(i) <= Coefficient(Z(dd * d.top + j))); }
+    // bounds, possibly rational and (NNC) strict:  x >= base - j/dd  (no further integer admitted),  x <= top + j/dd;
+    // a "thin" dimension gets the lower bound base + j/dd (j >= 1) instead, so that few or no integer values remain
+    bool thin_dim = thin && coin(15);
+    if (d.lb) {
+      int dd = (thin_dim || coin(25)) ? rnd(2, 3) : 1, j = thin_dim ? -rnd(1, dd - 1) : (dd > 1 ? rnd(0, dd - 1) : 0);
+      if (nnc && coin(30)) P.spec.cons.push_back(dd * Variable(i) > Coefficient(Z(dd * d.base - j)));
+      else P.spec.cons.push_back(dd * Variable(i) >= Coefficient(Z(dd * d.base - j)));
+    }
+    if (d.ub) {
+      int dd = (thin_dim || coin(25)) ? rnd(2, 3) : 1, j = dd > 1 ? rnd(0, dd - 1) : 0;
+      if (nnc && coin(30)) P.spec.cons.push_back(dd * Variable(i) < Coefficient(Z(dd * d.top + j)));
+      else P.spec.cons.push_back(dd * Variable(i) <= Coefficient(Z(dd * d.top + j)));
+    }
     d.wlo = d.base - 1; d.whi = d.top + 1;
     if (!d.lb) { d.wlo = d.base - 9; P.bounded = false; }
     if (!d.ub) { d.whi = d.top + 9; P.bounded = false; }
@@ -352,7 +362,7 @@ static std::string generic_class(const Shadow& SA, int n, const WP& wp, const Ve
     if (!ref::sat(SA.d[k].cons, p)) continue;
     bool each_ok = true; unsigned long long prod = 1;
     for (size_t i = 0; i < wp.vlist.size(); ++i) { long e = quad_extent(n, SA.d[k].cons, wp.vlist[i], wp); if (e <= 0 || (unsigned long) e > wp.thr) each_ok = false; else prod *= (unsigned long long) e; }
-    if (each_ok && prod > wp.thr) return std::string("coll-threshold-product") + (wp.use_guard ? "-guard" : "");
+    if (each_ok && prod > wp.thr) return "coll-threshold-product";
     break;
   }
   return base;
